@@ -112,3 +112,10 @@ CLAIMS["C17"] = dict(
     note="Trusted: SSA control flow and the recognised conversion forms 1/(1+d), 1/s−1, (1−s)/s; scenario assumptions (firewall enabled, embedder configured and successful, non-empty vector, TTL>0, created_at present) are encoded as blocked edges and listed in the evidence. RAG query rewriting (the embedded text may be an LLM rewrite of the prompt) is outside the check.",
     technique="static analysis: SSA guard-dominance path queries over the request pipeline, unit (conversion-parity) tracing across the engine/gateway boundary, writer/reader key-type agreement",
 )
+
+CLAIMS["C20"] = dict(
+    ref="DESIGN.md §4 C20",
+    text="Decides structural necessary conditions of totality and boundedness: the recursive splitter gives back what it removes — the separator is partitioned into a whitespace joiner and a kept content part that is put in front of every piece after the first (TBL-sep); only text whose length entered the ChunkSize comparison is added to a chunk, every built-in separator table ends with the character-level fallback, and the overlap tail is chosen knowing the next piece's length (GRD-size); recursion runs on a strictly shorter separator list, FixedSizeChunker's step is positive on every path into its loop, the tail loop shrinks (GRD-progress); assembleContext selects a chunk only on the within-budget edge and counts it (GRD-budget); expandGraphBFS expands only below depth limit and node cap, enqueues only unvisited neighbours after marking them, and advances its queue head on every iteration (GRD-expand); negations/connectives are protected before any removal table is consulted and no table lists one (TBL-stop); the text functions contain no map iteration, goroutine, clock or randomness (EFF-det). Absence of panics in the stemmers, the exact chunk-length bound as arithmetic, and token counts of the assembled text (joiners are not counted by the code) are NOT decided.",
+    note="Trusted: SSA value flow; the recognised shapes (strings.Split + mergeSplits, sep[:n]/sep[n:], TrimLeftFunc(unicode.IsSpace)). max_expansion_nodes is documented as a parameter of the graph strategy, so the greedy/density strategies (bounded by k seeds × one level) are not required to test it.",
+    technique="static analysis: SSA guard-dominance and value-provenance checks over splitter/chunker/retriever, constant-table checks over typed AST, effect (non-determinism source) scan over the static call tree",
+)
